@@ -227,6 +227,33 @@ STDOUT_DISPATCHER = FileThreadDispatcher(default=sys.stdout)
 STDERR_DISPATCHER = FileThreadDispatcher(default=sys.stderr)
 
 
+class _SharedStdRedirect:
+    """sys.stdout/sys.stderr are process-global: alias threads whose scopes
+    overlap must not save/restore them individually (the scope that ends last
+    would restore the dispatcher it saw on entry).  The first scope in swaps the
+    dispatchers in, the last one out puts the saved streams back."""
+
+    _lock = threading.Lock()
+    _depth = 0
+    _saved = None
+
+    def __enter__(self):
+        cls = _SharedStdRedirect
+        with cls._lock:
+            if cls._depth == 0:
+                cls._saved = (sys.stdout, sys.stderr)
+                sys.stdout, sys.stderr = STDOUT_DISPATCHER, STDERR_DISPATCHER
+            cls._depth += 1
+
+    def __exit__(self, *exc):
+        cls = _SharedStdRedirect
+        with cls._lock:
+            cls._depth -= 1
+            if cls._depth == 0:
+                sys.stdout, sys.stderr = cls._saved
+                cls._saved = None
+
+
 def parse_proxy_return(r, stdout, stderr):
     """Proxies may return a variety of outputs. This handles them generally.
 
@@ -464,8 +491,7 @@ class ProcProxyThread(threading.Thread):
             with (
                 STDOUT_DISPATCHER.register(sp_stdout),
                 STDERR_DISPATCHER.register(sp_stderr),
-                xt.redirect_stdout(STDOUT_DISPATCHER),
-                xt.redirect_stderr(STDERR_DISPATCHER),
+                _SharedStdRedirect(),
                 XSH.env.swap(self.env, overlay=alias_env, __ALIAS_STACK=alias_stack),
             ):
                 r = run_with_partial_args(
